@@ -50,6 +50,30 @@ Theorem tt2_without_target : forall fixed3 retries s pos,
 Proof. reflexivity. Qed.
 Print Assumptions tt2_without_target.
 
+(* ---------------------------------------------------------------- Type 4 presence check (open finding)
+   the faithful model: one attempt, True exactly when that attempt is answered *)
+Theorem t4_is_present_guarded : forall s pos,
+  t4_is_present s pos = (true, 1%nat) <-> exists d, s pos = Answer d.
+Proof.
+  intros s pos. unfold t4_is_present. destruct (s pos) as [d|f b]; split; intro H.
+  - exists d. reflexivity.
+  - reflexivity.
+  - discriminate.
+  - destruct H as [d H]. discriminate.
+Qed.
+Print Assumptions t4_is_present_guarded.
+
+(* refuted: "the presence check survives a transient error by repeating the command" - one lost block,
+   the tag would answer the next attempt (as it answers a Type 2 READ retried by transceive), reported absent *)
+Theorem C16_t4_is_present_refuted : exists s : script,
+  (exists d, s 1%nat = Answer d) /\ fst (t4_is_present s 0) = false /\
+  exists d, fst (transceive TT2 true 2 true s 0) = Ok d.
+Proof.
+  exists (script_of [Fault FTimeout false; Answer [163%Z]]). split; [eexists; reflexivity|].
+  split; [reflexivity|]. eexists. vm_compute. reflexivity.
+Qed.
+Print Assumptions C16_t4_is_present_refuted.
+
 (* ---------------------------------------------------------------- no_double_apply
    what the tag receives during one command: only the LAST delivery can be an answered one (a command
    that was answered is not sent again); an Ok result means the command was executed, the executions
